@@ -7,6 +7,7 @@ import (
 	"math/rand"
 	"net"
 	"net/http"
+	"os"
 	"strconv"
 	"strings"
 	"sync"
@@ -278,8 +279,55 @@ type faultCase struct {
 	Idx  int    `json:"idx"`
 }
 
+// bodyFailureCases: failures after a complete head that are not an orderly
+// close: the origin aborts the connection (RST) inside the body, or sends
+// bytes that are not chunk framing where the next chunk-size line is due.
+func bodyFailureCases(r *vh.Run, list []*canned, tcp bool) []faultCase {
+	var out []faultCase
+	idx := 1 << 20
+	for ri, c := range list {
+		if len(c.Bytes) == c.HeadLen {
+			continue
+		}
+		rng := r.Rng("c03-bodyfail", ri)
+		var ks []int
+		for i := 0; i < r.Pick(3, 8); i++ {
+			ks = append(ks, c.HeadLen+1+rng.Intn(len(c.Bytes)-c.HeadLen-1+1)-1)
+		}
+		for _, k := range ks {
+			if k <= c.HeadLen || k >= len(c.Bytes) {
+				continue
+			}
+			idx++
+			out = append(out, faultCase{Kind: "trunc", Fault: "trunc-rst", R: ri, RName: c.Name, K: k, Pipelined: idx%2 == 0 && !tcp, Warm: idx%4 >= 2, TCP: tcp, Body: []string{"", "cl"}[idx%2], Idx: idx})
+		}
+		if c.Framing != "chunked" || tcp {
+			continue
+		}
+		for _, ch := range c.Chunks {
+			idx++
+			out = append(out, faultCase{Kind: "trunc", Fault: "trunc-badchunk", R: ri, RName: c.Name, K: ch[0], Pipelined: idx%2 == 0, Warm: idx%4 >= 2, Logger: idx%8 >= 4, Idx: idx})
+		}
+	}
+	return out
+}
+
+func badChunkLine(idx int) []byte {
+	return []byte([]string{"zz\r\nhello\r\n", "-5\r\nhello\r\n", "1g\r\nabc", "\x00\x01\x02\r\n", "ffffffffffffffffffff\r\nx\r\n", " \r\n\r\n"}[idx%6])
+}
+
 func runTruncBatch(r *vh.Run, child int, tcp bool) {
 	list := cannedList(r)
+	for i, fc := range bodyFailureCases(r, list, tcp) {
+		if !tcp && i%truncBatches != child {
+			continue
+		}
+		r.Case(fc)
+		runFaultCase(r, fc)
+		if stopEarly(r) {
+			return
+		}
+	}
 	idx := 0
 	for ri, c := range list {
 		ks := offsets(c, r.Rng("c03-offsets", ri))
@@ -301,8 +349,14 @@ func runTruncBatch(r *vh.Run, child int, tcp bool) {
 					continue
 				}
 				r.Case(fc)
+				before := r.Violations()
 				runFaultCase(r, fc)
 				if stopEarly(r) {
+					return
+				}
+				if r.Violations() > before && hung(fc) {
+					// a wedged proxy costs ~40 s per case (quiescence + teardown watchdog)
+					r.Count("fault_batch_stopped_after_a_hang", 1)
 					return
 				}
 			}
@@ -310,11 +364,17 @@ func runTruncBatch(r *vh.Run, child int, tcp bool) {
 	}
 }
 
+var hungCases sync.Map
+
+func hung(c faultCase) bool { _, ok := hungCases.Load(c.Idx); return ok }
+
 // "-then-up": the first dial of the address fails, later dials reach a healthy
 // origin, and the follow-up asks for the *same* address. "connect-*": the
 // faulted request is a CONNECT (no MITM) whose dial fails.
 var faultKinds = []string{"refused", "dialerr", "dial-timeout", "accept-close", "garbage-accept", "garbage", "status-garbage", "bad-header-bytes",
-	"refused-then-up", "dialerr-then-up", "dial-timeout-then-up", "connect-refused", "connect-dialerr", "connect-dial-timeout"}
+	"refused-then-up", "dialerr-then-up", "dial-timeout-then-up", "connect-refused", "connect-dialerr", "connect-dial-timeout",
+	// persistent dial errors that call themselves temporary (and are not timeouts)
+	"dial-temporary", "dial-emfile", "connect-dial-temporary"}
 
 // dialTimeout is a timeout-class dial error (net.Error with Timeout() == true).
 type dialTimeout struct{}
@@ -522,7 +582,7 @@ func runFaultCase(r *vh.Run, c faultCase) {
 	rng := r.Rng("c03-"+c.Kind, c.Idx)
 	nonce := fmt.Sprintf("%08x", rng.Uint32())
 	var can *canned
-	if c.Fault == "trunc" {
+	if strings.HasPrefix(c.Fault, "trunc") {
 		l := cannedList(r)
 		if c.R < 0 || c.R >= len(l) || c.K < 0 || c.K > len(l[c.R].Bytes) {
 			r.Inconclusive("replay: canned response index/offset out of range for this tier", c)
@@ -556,6 +616,12 @@ func runFaultCase(r *vh.Run, c faultCase) {
 			switch c.Fault {
 			case "trunc":
 				return h1x.Action{Write: can.Bytes[:c.K], Close: c.K < len(can.Bytes)}
+			case "trunc-rst":
+				// the connection is aborted (RST), not closed, inside the body
+				return h1x.Action{Write: can.Bytes[:c.K], Close: true, Reset: true}
+			case "trunc-badchunk":
+				// bytes that are not chunk framing where a chunk-size line is due
+				return h1x.Action{Write: append(append([]byte(nil), can.Bytes[:c.K]...), badChunkLine(c.Idx)...), Close: true}
 			case "garbage":
 				return h1x.Action{Write: garb, Close: true}
 			case "status-garbage":
@@ -572,7 +638,7 @@ func runFaultCase(r *vh.Run, c faultCase) {
 	isConnect := strings.HasPrefix(c.Fault, "connect-")
 	base := strings.TrimSuffix(strings.TrimPrefix(c.Fault, "connect-"), "-then-up")
 	switch base {
-	case "refused", "dialerr", "dial-timeout":
+	case "refused", "dialerr", "dial-timeout", "dial-temporary", "dial-emfile":
 		faultHost = "bad.test"
 		var fail func() (net.Conn, error)
 		switch base {
@@ -590,6 +656,14 @@ func runFaultCase(r *vh.Run, c faultCase) {
 			}
 		case "dialerr":
 			fail = func() (net.Conn, error) { return nil, errors.New("harness: custom dial failure " + nonce) }
+		case "dial-temporary":
+			fail = func() (net.Conn, error) {
+				return nil, &net.OpError{Op: "dial", Net: "tcp", Err: &net.DNSError{Err: "server misbehaving", Name: "bad.test", Server: "10.0.0.53:53", IsTemporary: true}}
+			}
+		case "dial-emfile":
+			fail = func() (net.Conn, error) {
+				return nil, &net.OpError{Op: "dial", Net: "tcp", Err: os.NewSyscallError("socket", syscall.EMFILE)}
+			}
 		default:
 			fail = func() (net.Conn, error) { return nil, &net.OpError{Op: "dial", Net: "tcp", Err: dialTimeout{}} }
 		}
@@ -694,6 +768,7 @@ func runFaultCase(r *vh.Run, c faultCase) {
 		case vh.Happened:
 			return true
 		case vh.Stuck:
+			hungCases.Store(c.Idx, true)
 			vs = append(vs, viol{"hang", kind, "after " + what + " the proxy neither completed the exchange, nor waited for the next request, nor closed (quiescent)\n" + trunc(fp, 3000)})
 			return false
 		}
